@@ -487,6 +487,38 @@ Section Denote.
     end.
 End Denote.
 
+(* hypotheses of the type-reference theorems *)
+(* a later state of the import table keeps every active import active under the same alias *)
+Definition extends (st st' : table) : Prop :=
+  forall p i, tget st p = Some i -> i_in_use i = true ->
+  exists i', tget st' p = Some i' /\ i_in_use i' = true /\ i_alias i' = i_alias i.
+
+(* the aliases of the active imports are pairwise distinct *)
+Definition alias_injective (act : table) : Prop := NoDup (map i_alias act).
+
+Definition has_alias (act : table) (a : string) : Prop := exists i, In i act /\ i_alias i = a.
+
+(* a type as go/types hands it over for a method of a package that compiles: universe names
+   are not shadowed by package-level declarations, same-package names are declared, a variadic
+   tuple ends in a slice *)
+Inductive wf_ty (self : string) (local : string -> bool) : ty -> Prop :=
+| WBasic s : prefix "untyped " s = false -> wf_ty self local (TBasic s)
+| WNamed pkg n targs :
+    match pkg with
+    | None => local n = false
+    | Some (p, _) => String.eqb p self = true -> local n = true
+    end ->
+    Forall (wf_ty self local) targs -> wf_ty self local (TNamed pkg n targs)
+| WPtr x : wf_ty self local x -> wf_ty self local (TPtr x)
+| WSlice x : wf_ty self local x -> wf_ty self local (TSlice x)
+| WArray n x : wf_ty self local x -> wf_ty self local (TArray n x)
+| WMap k v : wf_ty self local k -> wf_ty self local v -> wf_ty self local (TMap k v)
+| WFunc ps v rs :
+    Forall (fun p : pinfo * ty => wf_ty self local (snd p)) ps ->
+    Forall (fun p : pinfo * ty => wf_ty self local (snd p)) rs ->
+    (v = true -> exists ps0 pi x, ps = (ps0 ++ [(pi, TSlice x)])%list) ->
+    wf_ty self local (TFunc ps v rs).
+
 (* qualifiers used by a reference *)
 Fixpoint qualifiers (x : texpr) : list string :=
   match x with
